@@ -797,6 +797,11 @@ func (e *Enc) strKeyAxioms() string {
 				fmt.Fprintf(&b, "(assert (= (= %s %s) %s))\n", a, c, strEqLit(ks[j], li))
 			case okj:
 				fmt.Fprintf(&b, "(assert (= (= %s %s) %s))\n", a, c, strEqLit(ks[i], lj))
+			default:
+				if e.spec != nil && e.spec.StrKeysPairwise {
+					// two computed keys: equal identities iff equal contents
+					fmt.Fprintf(&b, "(assert (= (= %s %s) %s))\n", a, c, strEq(ks[i], ks[j]))
+				}
 			}
 		}
 	}
@@ -838,10 +843,26 @@ func (e *Enc) typeByName(name string) types.Type {
 	if strings.HasPrefix(name, "[]") {
 		return types.NewSlice(e.typeByName(name[2:]))
 	}
+	if strings.HasPrefix(name, "map[") {
+		depth := 0
+		for i := 3; i < len(name); i++ {
+			switch name[i] {
+			case '[':
+				depth++
+			case ']':
+				depth--
+				if depth == 0 {
+					return types.NewMap(e.typeByName(name[4:i]), e.typeByName(name[i+1:]))
+				}
+			}
+		}
+	}
 	ptr := strings.HasPrefix(name, "*")
 	n := strings.TrimPrefix(name, "*")
 	var t types.Type
 	switch n {
+	case "interface{}":
+		t = types.NewInterfaceType(nil, nil)
 	case "string":
 		t = tString
 	case "int":
